@@ -12,8 +12,10 @@ from props.progcases import ProgramSpec
 
 PID = 'C02'
 EXTRA_MODULES = ['DiffxVerif.Properties.C02Doc']
-TIE_MODULES = ['DiffxVerif.Tie.Sections', 'DiffxVerif.Tie.Spec', 'DiffxVerif.Tie.RegexWriter']
-NEEDS = ['sections', 'options', 'text', 'spec_tree', 're_writer']
+TIE_MODULES = ['DiffxVerif.Tie.Sections', 'DiffxVerif.Tie.Spec']
+NEEDS = ['sections', 'options', 'text', 'spec_tree']
+# a change of these pattern tables makes the check search with its escalated budget (no obligation)
+SOFT_PATTERNS = ['re_writer']
 ASSUMPTIONS = [
     'CPython codecs and json.dumps are environment (answers supplied to the model at run time); codec laws are tested per codec by C15',
     'harness/specdoc.py is an independent serializer written from docs/spec; three-way comparison implementation / Lean model / specdoc',
